@@ -5,6 +5,7 @@ package main
 
 import (
 	"fmt"
+	"go/constant"
 	"go/token"
 	"go/types"
 	"sort"
@@ -558,3 +559,5 @@ func lastStoreBefore(load *ssa.UnOp, a *ssa.Alloc) *ssa.Store {
 	}
 	return nil
 }
+
+func constantInt(n int64) constant.Value { return constant.MakeInt64(n) }
